@@ -27,7 +27,7 @@ TROOL_VALUES = [S("on"), S("off"), S("auto"), B(True), B(False), S("bogus"), MAY
                 S("1"), S("0"), S("t"), S("nil"), S("True"), S("False"), S("AUTO"), S(""), S("oK"), S("İ")]
 ID_INVALID = re.compile(r"[^A-Za-z0-9_:.\-]")
 PRE_ATTRS = ["name", "value", "id", "for", "tabindex", "checked", "selected"]
-TYPES = ["text", "checkbox", "radio", "password", "hidden", "submit", "file", "image", ""]
+TYPES = ["text", "checkbox", "radio", "password", "hidden", "submit", "file", "image", "", "CHECKBOX", "Radio", "Password"]
 
 
 # ------------------------------------------------------------------ reference (spec B in Python)
@@ -112,7 +112,7 @@ def applies(option, tag, forced, given):
 def value_effect(tag, attrs, contents, u, forced):
     """documented per-tag meaning of auto-value ("the semantics of value vary by tag"); returns the new text or None"""
     if tag == "input":
-        kind = attrs.get("type", "")
+        kind = attrs.get("type", "").lower()      # type keywords are case-insensitive
         if kind in ("checkbox", "radio"):
             # checked iff value= matches the element; a checkbox without value= is left alone (bind is not a Boolean
             # here), a radio without value= counts as value=""
@@ -164,7 +164,7 @@ def expected_tag(op, levels, resolver, tb):
         if not basis:
             return None
         suffix = None
-        if (tag == "input" and attrs.get("type") in ("checkbox", "radio")) or tag == "label":
+        if (tag == "input" and attrs.get("type", "").lower() in ("checkbox", "radio")) or tag == "label":
             suffix = ID_INVALID.sub("", attrs.get("value", ""))
         return basis + "_" + suffix if suffix else basis
 
